@@ -209,7 +209,14 @@ def _resolve_identifier(
             f"Inherited expression does not expose attributes: {identifier.name}"
         )
 
-    for index, scope in enumerate(ordered_scopes):
+    # Nix consults `with` environments only when no enclosing let, rec set or
+    # function argument binds the name: lexical scopes first (innermost first),
+    # then the weak `with` scopes (innermost first).
+    search_order = [
+        index for index, scope in enumerate(ordered_scopes) if not scope.weak
+    ] + [index for index, scope in enumerate(ordered_scopes) if scope.weak]
+    for index in search_order:
+        scope = ordered_scopes[index]
         scope_chain = tuple(reversed(ordered_scopes[index:]))
         outer_chain = (
             tuple(reversed(ordered_scopes[index + 1 :]))
